@@ -139,12 +139,23 @@ def run(P: Program, R: Report, tier: str) -> None:
 
     ta = P.class_named("TrackAnnotator")
     monotone_maxima(P, R, ta, families(P, ta), "R05.7", only_key="lineage", floor=1)
+    # R05.8 the lookups the splice / bridge steps read lose no member: a stale per-track list makes UserDeleteNode skip the
+    # bridge, and the two halves of the track keep one lineage id (shared with C06 / C04)
+    from .c06 import no_wholesale_replace
+    from .neighbours import nearest_neighbour
+
+    no_wholesale_replace(P, R, ta, families(P, ta), rule="R05.8")
+    nearest_neighbour(P, R, "R05.8")
     # ---- R02.6 (shared): every top-level action is one history step and a nested one none - a stray step makes a later
     # undo / redo replay half an edit, which is a state this property quantifies over ("after every ... undo or redo")
     from . import c02 as _c02r
 
     _c02r.history_shape(P, R)
     _c02r.registration(P, R, tier, A=A, facade=False)
+    # ---- R05.9 the annotator maintains the attribute the queries read (key names threaded from the feature dictionary)
+    from .annot import keys_threaded
+
+    keys_threaded(P, R, "R05.9", only=('lineage',))
 
 
 ID_SOURCES = ("get_track_neighbors", "get_lineage_id", "get_track_id", "get_next_track_id", "get_next_lineage_id")
